@@ -59,3 +59,24 @@ Proof.
   - intros xs ctx H. exact (RescaleProofs.chain_rescale_invariant F V eos c nw xs ctx H).
 Qed.
 Print Assumptions C04_rescaling_invariant.
+
+(* The hypotheses of the chain rule hold for the reference semantics: with next-token weights = reference prefix
+   weights of context+token and eos weight = the reference weight of the context, the product of the conditionals
+   along xs followed by eos is weight(ctx xs) / prefix weight(ctx), for every grammar over every field and every
+   height -- the prefix-sum identity is a theorem about the derivation sums (C03), not an assumption.  What remains
+   tied by correspondence only is that the implementation's next-token weights ARE these reference prefix weights. *)
+From GV.proofs Require PrefixSumProofs.
+Theorem C04_reference_chain_rule : forall (F : FR) (G : grammar F) (V : list nat) (h s eos : nat),
+  NoDup V -> ~ In eos V ->
+  (forall r a, In r G -> In (T a) (rbody r) -> In a V) ->
+  forall xs ctx, (forall x, In x xs -> In x V) ->
+    (forall k, k <= length xs -> Wpre G h s (ctx ++ firstn k xs) <> s0) ->
+    chain V eos (PrefixSumProofs.ref_nw F G h s eos) ctx xs = fdiv F (W G h s (ctx ++ xs)) (Wpre G h s ctx).
+Proof. intros F G V h s eos HV He Ht xs ctx Hx Hk. exact (PrefixSumProofs.reference_chain_rule F G V h s eos HV He Ht xs ctx Hx Hk). Qed.
+Print Assumptions C04_reference_chain_rule.
+
+Example C04_reference_chain_rule_nonvacuous :
+  chain [0; 1] 2 (PrefixSumProofs.ref_nw QcFR PrefixSumProofs.ps_G 3 0 2) [] [1; 0]
+  = fdiv QcFR (W PrefixSumProofs.ps_G 3 0 ([] ++ [1; 0])) (Wpre PrefixSumProofs.ps_G 3 0 []).
+Proof. exact PrefixSumProofs.reference_chain_instance_thm. Qed.
+Print Assumptions C04_reference_chain_rule_nonvacuous.
